@@ -20,6 +20,24 @@ def real_program(ops):
     return prog
 
 
+def _finalizations(rep: Report, spec_prog, r, case, fault) -> None:
+    """Draw.tla: the program of every run (clean / cut at operation k) contains Z - the render data
+    is finalized - exactly as often as the REAL draw() finalized the live render data before it
+    returned or raised (marks recorded by the probe while draw() was running)."""
+    want = sum(1 for o in spec_prog if o["op"] == "Z")
+    real = sum(1 for m in r.get("marks", []) if m[0] == "finalize")
+    if real != want or not r.get("fin_live", True):
+        at = f"a Ctrl-C at operation #{fault['k']} ({r['ops'][fault['k'] - 1][0]})" if fault else "a clean run"
+        rep.violation(
+            "new-api:draw:interrupted-finalize" if fault else "new-api:draw:finalize",
+            f"after {at} the real draw() finalized its render data {real} time(s) before it was over "
+            f"(live instance finalized: {r.get('fin_live')}), Draw.tla specifies {want} (op Z of the "
+            f"clean-up program) for {case}",
+            {"kind": "fault", "case": case, "fault": fault, "expect": "n/a"} if fault
+            else {"kind": "draw", "case": dict(case, r0=0)},
+        )
+
+
 def check(rep: Report, what: str = "clean") -> None:
     """what = "clean": C06 (program of uninterrupted draws); "interrupted": C07 (clean-up programs)."""
     if what == "clean":
@@ -46,8 +64,10 @@ def check(rep: Report, what: str = "clean") -> None:
         rep.traces_validated += 1
         r = drawkit.run_new(case)
         real = real_program(r["ops"])
-        want = [{"op": o["op"], "toks": list(o["toks"])} for o in pr["prog"]]
+        # Z (render data finalized) is counted, its position is not part of the choreography
+        want = [{"op": o["op"], "toks": list(o["toks"])} for o in pr["prog"] if o["op"] != "Z"]
         rep.distinct.add(("prog", tuple(sorted(c.items()))))
+        _finalizations(rep, pr["prog"], r, case, None)
         if real != want:
             i = next((i for i, (a, b) in enumerate(zip(real, want)) if a != b), min(len(real), len(want)))
             rep.violation(
@@ -74,8 +94,9 @@ def check(rep: Report, what: str = "clean") -> None:
             if not r["fired"]:
                 continue
             real = real_program(r["ops"])[k:]
-            want = [{"op": o["op"], "toks": list(o["toks"])} for o in pr["cleanups"][k - 1]]
+            want = [{"op": o["op"], "toks": list(o["toks"])} for o in pr["cleanups"][k - 1] if o["op"] != "Z"]
             rep.distinct.add(("cleanup", tuple(sorted(c.items())), k))
+            _finalizations(rep, pr["cleanups"][k - 1], r, case, dict(k=k, p=0, kind="kbint"))
             if real != want:
                 rep.violation(
                     "new-api:draw:interrupted-cleanup",
